@@ -368,6 +368,22 @@ def depElemsCheck {ρ} (vd : ρ → V) (sub : SubG ρ) (kvs : List (String × JV
 def depNamesOf {ρ} (sub : SubG ρ) : List (String × List String) :=
   sub.deps.filterMap fun d => d.1.names.map fun l => (d.1.name, l)
 
+/-- `AdditionalProperties` as a *validator*.  For elements that build objects through `Properties` the construction
+    step already rejects the same keys, so the validator adds nothing there; it is observable only on elements whose
+    construction does not go through `Properties` (`Not`, compositions) and that were given object keywords. -/
+def additionalPropsCheck {ρ} (env : Env) (c : Cls) (kw : Kw) (sub : SubG ρ) (kvs : List (String × JVal)) : V :=
+  match c with
+  | .not | .anyOf | .oneOf | .allOf =>
+    -- an element-valued `additionalProperties` is truthy (a `Nothing()` element there behaves like `False`; the
+    -- harness writes `False` in that case)
+    let falsy := match sub.addProps with
+      | some _ => false
+      | none => !kw.addPropsB
+    if !falsy then .pass
+    else V.ofBool (kvs.all fun kv =>
+      (sub.props.any fun p => p.1.src == kv.1) || (sub.patProps.any fun p => env.re p.1.name kv.1))
+  | _ => .pass
+
 /-! ### `create` = validators, then `construct` -/
 
 def validators {ρ} (vd : ρ → V) (env : Env) (c : Cls) (kw : Kw) (sub : SubG ρ) (v : JVal) : V :=
@@ -379,7 +395,7 @@ def validators {ρ} (vd : ρ → V) (env : Env) (c : Cls) (kw : Kw) (sub : SubG 
   | .arr xs => (arrChecks kw xs).and <| (additionalItemsCheck kw sub xs).and <| containsCheck vd sub xs
   | .obj kvs =>
     (objChecks kw (sub.props.map fun p => (p.1, p.2.1)) (depNamesOf sub) kvs).and <|
-    (propNamesCheck vd sub kvs).and <| depElemsCheck vd sub kvs
+    (propNamesCheck vd sub kvs).and <| (depElemsCheck vd sub kvs).and <| additionalPropsCheck env c kw sub kvs
   | _ => .pass
 
 def scalarConv : JVal → RVal
@@ -434,6 +450,11 @@ def callCore (env : Env) (c : Cls) (kw : Kw) (sub : Sub) (a : Arg) : Res :=
       | .ok r => .ok r
       | .reject => .ok (.raw d)
       | .crash => .crash
+
+/-- is the optional element a `Nothing()` -/
+def isNothingOpt : Option Elem → Bool
+  | some e => e.cls == .nothing
+  | none => false
 
 /-! ### Tying the knot: structural recursion over the element tree -/
 mutual
